@@ -102,6 +102,30 @@ fn expand_message_xof(msg: &[u8], dst: &[u8], len: usize) -> Vec<u8> {
 }
 
 pub fn expand_message(s: SuiteId, msg: &[u8], dst: &[u8], len: usize) -> Vec<u8> {
+    // RFC 9380 section 5.3.3: a DST longer than 255 octets is replaced by H("H2C-OVERSIZE-DST-" || DST)
+    // (SHA-256 digest for XMD; 2k/8 = 32 octets of SHAKE-256 output for XOF, k = 128)
+    let short: Vec<u8>;
+    let dst = if dst.len() > 255 {
+        short = match s {
+            SuiteId::Sha => {
+                let mut h = Sha256::new();
+                Digest::update(&mut h, b"H2C-OVERSIZE-DST-");
+                Digest::update(&mut h, dst);
+                h.finalize().to_vec()
+            }
+            SuiteId::Shake => {
+                let mut h = Shake256::default();
+                h.update(b"H2C-OVERSIZE-DST-");
+                h.update(dst);
+                let mut out = vec![0u8; 32];
+                h.finalize_xof().read(&mut out);
+                out
+            }
+        };
+        &short[..]
+    } else {
+        dst
+    };
     match s {
         SuiteId::Sha => expand_message_xmd(msg, dst, len),
         SuiteId::Shake => expand_message_xof(msg, dst, len),
